@@ -158,7 +158,7 @@ def lossy_problem(x, y, digits, reference, seen=None):
     big = float(np.abs(x).max())
     slack = 16 * np.finfo(float).eps * big
     if digits == 'single':
-        bad = err > np.abs(x) * 2. ** -24 * (1 + 1e-9)
+        bad = err > np.abs(x) * 2. ** -24 * (1 + 1e-9) + 2. ** -149       # float32 storage: gradual underflow below 1.2e-38
         return 'single precision: error %g at value %g' % (err[bad][0], x[bad][0]) if bad.any() else None
     if isinstance(reference, str) and reference == 'fpzip':
         d = min(max(SINGLE_DIGITS, float(digits)), DOUBLE_DIGITS)
@@ -334,10 +334,11 @@ def oracle(case):
         else:
             r = pickle.loads(data)
     except Exception as e:
-        if case.get('digits') is not None and any(isinstance(o._values_, np.ndarray) and o._values_.dtype.kind == 'f'
-                                                   and o._values_.dtype.itemsize == 4 for o in [q] + list(q._derivs_.values())):
-            return ('loads-raises:%s:lossy-f4' % type(e).__name__,
-                    'pickle.loads raised %s: %s (float32 data under a lossy setting)' % (type(e).__name__, str(e)[:200]))
+        if case.get('digits') is not None:
+            f4 = any(isinstance(o._values_, np.ndarray) and o._values_.dtype.kind == 'f' and o._values_.dtype.itemsize == 4
+                     for o in [q] + list(q._derivs_.values()))
+            return ('loads-raises:%s:lossy%s' % (type(e).__name__, '-f4' if f4 else ''),
+                    'pickle.loads raised %s: %s (under a lossy setting)' % (type(e).__name__, str(e)[:200]))
         return ('loads-raises:%s:%s' % (type(e).__name__, dtype_tag(q)),
                 'pickle.loads raised %s: %s' % (type(e).__name__, str(e)[:200]))
     return compare(case, q, r)
@@ -354,7 +355,7 @@ INT_DTYPES = ['int8', 'int16', 'int32', 'int64', 'uint8', 'uint16', 'uint32', 'u
               '>i2', '>i4', '>i8', '>u2', '>u4', '>u8']            # the last six: non-native (big-endian) byte order
 FLOAT_DTYPES = ['float64'] * 6 + ['float32', '>f8', '>f8', '>f4']
 FLOAT_DISTS = ['normal', 'const', 'smooth', 'wide', 'zeros', 'negzero', 'subnormal', 'inf', 'nan', 'bits', 'special']
-LOSSY_DISTS = ['normal', 'const', 'smooth', 'offset', 'uniform', 'moderate', 'withzeros']
+LOSSY_DISTS = ['normal', 'const', 'smooth', 'offset', 'uniform', 'moderate', 'withzeros', 'tiny']
 INT_DISTS = ['full', 'small', 'const', 'extremes', 'zeros']
 SMALL_SHAPES = [[], [1], [3], [0], [2, 3], [3, 0], [1, 1], [4, 5], [2, 3, 2], [2, 1, 2, 1, 2], [2, 2, 2, 2, 2, 2]]
 EDGE_SHAPES = [[199], [200], [201], [10, 20], [3, 67], [14, 15], [2, 3, 2, 3, 2, 3], [5, 41], [2, 2, 2, 2, 2, 7],
@@ -572,7 +573,7 @@ def gen_cases(rng, tier):
     for _ in range(3 if thorough else 1):
         for digits, reference in DIGIT_OPTS:
             has_single = 'single' in (digits if isinstance(digits, list) else [digits])
-            for dist in ('inf', 'nan') + (() if has_single else ('wide',)):
+            for dist in ('inf', 'nan') + (() if has_single else ('wide', 'tiny')):
                 for cls in (FLOAT_CLASSES[0], rng.choice(FLOAT_CLASSES[1:4])):
                     shape = rng.choice(BIG_SHAPES[:5])
                     o = rand_obj(rng, 'float', shape, lossy=True, cls=cls)
